@@ -1,18 +1,25 @@
 (* C10 - the parsed polynomial equals the polynomial written: statements.
    Model: PolFile/DecRatModel.v (decimal literals, conversions as coded), PolFile/PolModel.v
-   (descriptions, render, the model parser).  Proofs: PolFile/Chars.v, PolFile/PolProofs.v.
+   (descriptions, render, the model parser), PolFile/V2Model.v (the 2.x reader statement by statement),
+   PolFile/StoreModel.v (pieces of the inline conversion, the floating-point predicate).
+   Proofs: PolFile/Chars.v, PolProofs.v, RoundTrip*.v, RoundTripLegacy.v, DecRat.v, FloatPrec.v, StoreProofs.v.
 
    The composed round trip  wf d -> parse (render st pi d) = Poly (denote d)  is proved in full for
-   EVERY 3.x description: monomial, secular, Chebyshev; Integer, Rational, FloatingPoint (the model
-   parser keeps the exact decimal value; C10_float_within_prec bounds the truncation to the mpf
-   precision); dense and sparse (C10_parse_render).  Legacy 2.x files: only the token-level pieces are
-   proved (C10_legacy_rational_exact_partial); the header reader of parse_v2 and its dispatch are
-   NOT proved (C10_parse_render_legacy_partial states what is), they are exercised by the check.
-   C10_decrat_correct: the character-level decimal -> rational-string conversion, as coded now. *)
+   EVERY accepted file syntax (C10_parse_render): 3.x keyword files (monomial, secular, Chebyshev;
+   Integer, Rational, FloatingPoint; dense and sparse; any option order, case, comments, layout) and
+   legacy 2.x files (all twelve type words [sd][rc][qif], any precision word, dense and sparse with
+   the ignored count, "num den" rational pairs).  The 2.x reader is modelled statement by statement
+   with the error raised at each exit (read_v2) and proved equal to the compact reader inside [parse]
+   on every token list (C10_v2_reader_refines); C10_v2_type_rejected / C10_v2_type_accepted_iff say
+   which type words are accepted.  FloatingPoint: the model parser keeps the exact decimal value and
+   C10_float_end_to_end bounds what an mpf of at least the declared precision keeps of it.
+   C10_decrat_correct / C10_inline_ers_correct: the character-level decimal -> rational-string
+   conversion (utils.c, and the function of inline-poly-parser.c it is built on), as coded now. *)
 Require Import String Ascii List ZArith NArith QArith Bool Lia.
 Require Import MPSV.PolFile.Chars MPSV.PolFile.DecRatModel MPSV.PolFile.PolModel MPSV.PolFile.PolProofs.
 Require Import MPSV.PolFile.RoundTripText MPSV.PolFile.RoundTripLines MPSV.PolFile.RoundTripOptions MPSV.PolFile.RoundTripSettings MPSV.PolFile.RoundTrip.
 Require Import MPSV.PolFile.DecRat MPSV.PolFile.FloatPrec.
+Require Import MPSV.PolFile.V2Model MPSV.PolFile.RoundTripLegacy MPSV.PolFile.StoreModel MPSV.PolFile.StoreProofs.
 Import ListNotations.
 Local Open Scope char_scope.
 
@@ -36,10 +43,10 @@ Proof. exact num_token_exact. Qed.
 Print Assumptions C10_exact_coefficient_partial.
 
 (* legacy 2.x rational: the two tokens "n" "d" give n/d in lowest terms *)
-Theorem C10_legacy_rational_exact_partial : forall n lzn d lzd,
+Theorem C10_legacy_rational_exact : forall n lzn d lzd,
   read_part_legacy_q (num_tokens true (NRat n lzn d lzd)) = Some (qraw (Qred (n # d)), []).
 Proof. exact num_tokens_legacy_exact. Qed.
-Print Assumptions C10_legacy_rational_exact_partial.
+Print Assumptions C10_legacy_rational_exact.
 
 (* letter case: whatever mask of upper/lower case a keyword is written with, mps_parse_option_line's
    keyword recognition gives the same flag *)
@@ -87,33 +94,75 @@ Print Assumptions C10_filler_lines_have_no_tokens.
 
 (* ------------------------------------------------------------------ the composed round trip *)
 
-(* THE theorem, for every 3.x file (monomial, secular, Chebyshev; Integer, Rational, FloatingPoint;
-   dense, sparse): for every style (header, comments, blank lines, letter case, spacing, line layout,
-   explicit defaults, final newline) and every permutation code of the option lines, the model parser
-   returns exactly the polynomial the description denotes: kind, degree, structure, density,
-   precision, sparsity pattern, every coefficient as the canonical fraction written (for decimals:
-   the exact value of the literal). *)
+(* THE theorem, for EVERY accepted file syntax.  3.x keyword files (monomial, secular, Chebyshev;
+   Integer, Rational, FloatingPoint; dense, sparse): for every style (header, comments, blank lines,
+   letter case, spacing, line layout, explicit defaults, final newline) and every permutation code of
+   the option lines; legacy 2.x files (d_legacy d = true: monomial; type word [sd][rc][qif], precision
+   word, degree, for sparse the count word, then the coefficients, rationals as "num den" pairs): for
+   every layout of the tokens over lines, comments and blank lines.  The model parser returns exactly
+   the polynomial the description denotes: kind, degree, structure, density, precision, sparsity
+   pattern, every coefficient as the canonical fraction written (for decimals: the exact value of the
+   literal; see C10_float_end_to_end for what the mpf keeps). *)
 Theorem C10_parse_render : forall (st : style) (pi : list nat) (d : polydesc),
-  wf d -> d_legacy d = false -> parse (render st pi d) = Poly (denote d).
-Proof. exact parse_render_all_3x. Qed.
+  wf d -> parse (render st pi d) = Poly (denote d).
+Proof. exact parse_render_all. Qed.
 Print Assumptions C10_parse_render.
 
 (* corollaries: option order, letter case, comments, white space and layout are irrelevant *)
 Corollary C10_layout_order_case_comments_irrelevant : forall (st st' : style) (pi pi' : list nat) (d : polydesc),
-  wf d -> d_legacy d = false -> parse (render st pi d) = parse (render st' pi' d).
-Proof. intros. rewrite !parse_render_all_3x by assumption. reflexivity. Qed.
+  wf d -> parse (render st pi d) = parse (render st' pi' d).
+Proof. intros. rewrite !parse_render_all by assumption. reflexivity. Qed.
 Print Assumptions C10_layout_order_case_comments_irrelevant.
 
-(* legacy 2.x files: PARTIAL.  Proved: the rendered text reaches the line reader as its lines
-   (C10_rendered_lines_partial), the token section gives back its tokens (C10_token_section_partial),
-   integer tokens and "n d" rational pairs are read exactly (C10_integer_token_exact,
-   C10_legacy_rational_exact_partial), decimal tokens denote their literal (below).  NOT proved: the
-   header reader of mps_monomial_poly_read_from_stream_v2 (type letters, precision, degree, the
-   ignored count) and its dense/sparse dispatch, i.e. parse_v2 on legacy_header_tokens d ++ coeff_tokens d. *)
-Theorem C10_parse_render_legacy_partial : forall l : declit,
+(* ------------------------------------------------------------------ legacy 2.x files *)
+
+(* mps_monomial_poly_read_from_stream_v2 statement by statement (V2Model.read_v2: one exit per
+   mps_error / goto cleanup of the C function, in the order of the C code) computes, on EVERY token
+   list, what the compact reader used inside [parse] computes *)
+Theorem C10_v2_reader_refines : forall toks : list text, v2_forget (read_v2 toks) = parse_v2 toks.
+Proof. exact read_v2_refines. Qed.
+Print Assumptions C10_v2_reader_refines.
+
+Theorem C10_parse_outcome_refines : forall t : text,
+  outcome_forget (parse_outcome t) = parse t /\ outcome_forget (parse_string_outcome t) = parse_string t.
+Proof. intro t. split; [apply parse_outcome_forget|apply parse_string_outcome_forget]. Qed.
+Print Assumptions C10_parse_outcome_refines.
+
+(* the round trip at the level of the statement-by-statement reader: a rendered legacy description
+   takes the 2.x path and leaves it through none of its error exits *)
+Theorem C10_parse_render_legacy : forall (st : style) (pi : list nat) (d : polydesc),
+  wf d -> d_legacy d = true -> parse_outcome (render st pi d) = O_v2 (V2_poly (denote d)).
+Proof. exact parse_outcome_render_legacy. Qed.
+Print Assumptions C10_parse_render_legacy.
+
+(* which type words the 2.x reader accepts.  Refused, with "unsupported data_type" (first letter),
+   "unsupported data_structure" (second) or "unsupported data structure" (third), exactly the words
+   that are not accepted, whatever follows; ... *)
+Theorem C10_v2_type_rejected : forall (ty : text) (toks : list text),
+  v2_type_accepted ty = false <->
+  (read_v2 (ty :: toks) = V2_error V2E_data_type \/ read_v2 (ty :: toks) = V2_error V2E_data_structure
+   \/ read_v2 (ty :: toks) = V2_error V2E_coeff_type).
+Proof. exact v2_type_rejected. Qed.
+Print Assumptions C10_v2_type_rejected.
+
+(* ... accepted exactly the words whose first three characters are one of the 18 triples
+   {s,d,u} x {r,c} x {q,i,f} (lower case only; 'u' = user polynomial, no coefficients read; characters
+   after the third are ignored: sscanf "%3s"); words of fewer than three characters are refused *)
+Theorem C10_v2_type_accepted_iff : forall ty : text,
+  v2_type_accepted ty = true <-> exists t tail, In t v2_triples /\ ty = t ++ tail.
+Proof. exact v2_type_accepted_iff. Qed.
+Print Assumptions C10_v2_type_accepted_iff.
+
+(* the type word written for a description is accepted *)
+Theorem C10_rendered_type_accepted : forall d : polydesc, v2_type_accepted (legacy_type d) = true.
+Proof. exact legacy_type_accepted. Qed.
+Print Assumptions C10_rendered_type_accepted.
+
+(* decimal tokens (3.x and 2.x alike): mpf_set_str's model reads a rendered literal back exactly *)
+Theorem C10_decimal_token_exact : forall l : declit,
   wf_file_lit l -> decimal_value (render_declit l) = Some (declit_value l).
 Proof. intros l H. unfold decimal_value. rewrite parse_declit_render by exact H. reflexivity. Qed.
-Print Assumptions C10_parse_render_legacy_partial.
+Print Assumptions C10_decimal_token_exact.
 
 (* the decimal -> rational conversion behind mps_monomial_poly_set_coefficient_s and the inline
    parser, character by character as coded: for every well-formed literal (any mix of sign characters
@@ -136,6 +185,38 @@ Theorem C10_decrat_malformed_none : forall ip fp T : text,
 Proof. exact decimal_with_slash_refused. Qed.
 Print Assumptions C10_decrat_malformed_none.
 
+(* the function of common/inline-poly-parser.c that the conversion is built on
+   (build_equivalent_rational_string): for every well-formed decimal literal - sign characters and
+   blanks in front, leading zeros, ".5", "5.", exponents "e-3", "E+05" - it hands back a string p,
+   the exponent as written and the parity of the '-' signs, the exponent having been parsed without
+   error, and  sign * p * 10^exponent  (p read by mpq_set_str + canonicalize) is exactly the literal *)
+Theorem C10_inline_ers_correct : forall l : declit, wf_api_lit l ->
+  exists p, build_ers (render_declit l) = Some (p, expo_value (dl_exp l), sign_neg (dl_sign l), true)
+            /\ ers_value (p, expo_value (dl_exp l), sign_neg (dl_sign l), true) = Some (declit_value l).
+Proof. exact inline_ers_correct. Qed.
+Print Assumptions C10_inline_ers_correct.
+
+(* there is one implementation of the scan, not two: mps_utils_build_equivalent_rational_string is
+   build_equivalent_rational_string followed by strip / sign / zero-padding (utils_assemble) *)
+Theorem C10_utils_uses_inline : forall s : text,
+  equiv_rational_string s =
+  match build_ers s with Some (p, e, neg, _) => Some (utils_assemble p e neg) | None => None end.
+Proof. exact utils_uses_inline. Qed.
+Print Assumptions C10_utils_uses_inline.
+
+(* refused (NULL): a decimal point or an exponent together with a rational separator, signed or not *)
+Theorem C10_signed_point_slash_refused : forall sg ip fp T : text,
+  Forall pmsign sg -> all_digits ip -> all_digits fp -> all_digits T ->
+  build_ers (sg ++ ip ++ "." :: fp ++ "/" :: T) = None.
+Proof. exact signed_point_slash_refused. Qed.
+Print Assumptions C10_signed_point_slash_refused.
+
+Theorem C10_signed_exponent_slash_refused : forall (sg ip : text) (m : ascii) (ex T : text),
+  Forall pmsign sg -> all_digits ip -> (m = "e" \/ m = "E") -> all_digits ex -> all_digits T ->
+  build_ers (sg ++ ip ++ m :: ex ++ "/" :: T) = None.
+Proof. exact signed_exponent_slash_refused. Qed.
+Print Assumptions C10_signed_exponent_slash_refused.
+
 (* FloatingPoint coefficients: the value kept by an mpf of prec bits (truncation of the exact decimal
    value) is not larger in modulus and within 2^-prec relative *)
 Theorem C10_float_within_prec : forall (p : positive) (q : Q),
@@ -143,6 +224,41 @@ Theorem C10_float_within_prec : forall (p : positive) (q : Q),
   /\ Qabs.Qabs (q - trunc_bits p q) <= Qabs.Qabs q * pow2Q (- Zpos p).
 Proof. exact trunc_bits_within. Qed.
 Print Assumptions C10_float_within_prec.
+
+(* an mpf of AT LEAST the declared precision (GMP rounds the precision up to whole limbs) *)
+Theorem C10_store_within : forall (bits B : positive) (q : Q),
+  (bits <= B)%positive -> within_prec bits (trunc_bits B q) q.
+Proof. exact store_within. Qed.
+Print Assumptions C10_store_within.
+
+Theorem C10_within_prec_decidable : forall (bits : positive) (s w : Q),
+  within_precb bits s w = true <-> within_prec bits s w.
+Proof. exact within_precb_iff. Qed.
+Print Assumptions C10_within_prec_decidable.
+
+(* ONE end-to-end statement for FloatingPoint descriptions of every syntax (3.x and 2.x), with and
+   without a declared precision: the parser returns the polynomial whose coefficients are exactly
+   the decimal values written (raw_Q r below, r ranging over all real and imaginary parts), and each
+   of them, stored by mpf_set_str's model into an mpf of B >= bits bits, is within 2^-bits relative
+   of the value written, bits = floor (digits * log2 10) for "Precision = digits" (resp. the 2.x
+   precision word), 64 when none is declared *)
+Theorem C10_float_end_to_end : forall (st : style) (pi : list nat) (d : polydesc) (B : positive),
+  wf d -> d_ctype d = TFloat -> (declared_bits (denote d) <= B)%positive ->
+  parse (render st pi d) = Poly (denote d)
+  /\ is_fp (p_struct (denote d)) = true
+  /\ Forall (fun r => within_prec (declared_bits (denote d)) (mpf_store B r) (raw_Q r)) (poly_parts (denote d)).
+Proof. exact float_end_to_end. Qed.
+Print Assumptions C10_float_end_to_end.
+
+Theorem C10_declared_bits : forall d : polydesc,
+  declared_bits (denote d) = match d_prec d with Some P => Z.to_pos (prec_bits (Zpos P)) | None => 64%positive end.
+Proof. exact declared_bits_denote. Qed.
+Print Assumptions C10_declared_bits.
+
+(* the numbers of the denoted polynomial are the values written *)
+Theorem C10_denoted_value : forall q : Q, raw_Q (canon q) == q.
+Proof. exact raw_Q_canon. Qed.
+Print Assumptions C10_denoted_value.
 
 (* every kind of description: what the line reader sees of a rendered text (mps_skip_comments,
    line splitting, comment stripping) is the list of rendered lines, comments cut, leading blank
@@ -270,3 +386,85 @@ Proof. vm_compute. split; reflexivity. Qed.
 Example C10_example_option_order_hyp :
   NoDup (map opt_class [(K_DEGREE, kw "5"); (F_REAL, []); (F_INTEGER, []); (F_SPARSE, [])]).
 Proof. repeat constructor; simpl; intuition discriminate. Qed.
+
+(* ------------------------------------------------------------------ legacy 2.x examples *)
+
+Definition legacy_sparse_cq : polydesc :=
+  {| d_legacy := true; d_kind := KMonomial; d_degree := 4; d_real := false; d_ctype := TRational;
+     d_sparse := true; d_prec := Some 20%positive;
+     d_terms := [ {| t_idx := 4; t_re := NRat (-6) 2 4 1; t_im := NInt 7 0 |};
+                  {| t_idx := 0; t_re := NInt 5 0; t_im := NRat 10 0 100 0 |} ];
+     d_bterms := [] |}.
+
+Definition legacy_dense_rf : polydesc :=
+  {| d_legacy := true; d_kind := KMonomial; d_degree := 1; d_real := true; d_ctype := TFloat;
+     d_sparse := false; d_prec := None;
+     d_terms := [ {| t_idx := 0; t_re := NDec lit_m125e3; t_im := NInt 0 0 |};
+                  {| t_idx := 1; t_re := NDec lit_0_5; t_im := NInt 0 0 |} ];
+     d_bterms := [] |}.
+
+Example C10_legacy_hypotheses_satisfiable :
+  wf legacy_sparse_cq /\ d_legacy legacy_sparse_cq = true /\ wf legacy_dense_rf /\ d_ctype legacy_dense_rf = TFloat.
+Proof.
+  assert (L1 : wf_file_lit lit_m125e3) by apply C10_decrat_hypothesis_satisfiable.
+  assert (L2 : wf_file_lit lit_0_5).
+  { unfold wf_file_lit, wf_body, wf_expo, all_digits, lit_0_5; cbn.
+    repeat split; auto; try discriminate; repeat constructor. }
+  split; [|split; [reflexivity|split; [|reflexivity]]].
+  - unfold wf, legacy_sparse_cq; cbn. repeat split; auto; try discriminate; try lia.
+    all: repeat constructor; cbn; auto; try discriminate; try lia; intuition discriminate.
+  - unfold wf, legacy_dense_rf; cbn. repeat split; auto; try discriminate; try lia.
+    repeat constructor; cbn; auto; discriminate.
+Qed.
+
+(* "scq 20 4 2  4 -006 04 7 1  0 5 1 10 100" spread over lines with comments *)
+Example C10_example_legacy_sparse_complex_rational :
+  render plain_style [] legacy_sparse_cq = kw "scq 20 4 2 4 -006 04 7 1 0 5 1 10 100" ++ [ch_nl]
+  /\ parse_outcome (render busy_style [2; 1]%nat legacy_sparse_cq) = O_v2 (V2_poly (denote legacy_sparse_cq))
+  /\ p_prec (denote legacy_sparse_cq) = 66%Z
+  /\ p_coeffs (denote legacy_sparse_cq) = [((5, 1), (1, 10)); ((0, 1), (0, 1)); ((0, 1), (0, 1)); ((0, 1), (0, 1)); ((-3, 2), (7, 1))]%Z.
+Proof. vm_compute. repeat split; reflexivity. Qed.
+
+(* every exit of the header reader is reached *)
+Example C10_example_v2_exits :
+  read_v2 [] = V2_error V2E_no_token
+  /\ read_v2 [kw "xri"; kw "0"; kw "2"] = V2_error V2E_data_type
+  /\ read_v2 [kw "DRI"; kw "0"; kw "2"] = V2_error V2E_data_type
+  /\ read_v2 [kw "d"] = V2_error V2E_data_structure
+  /\ read_v2 [kw "dxi"; kw "0"; kw "2"] = V2_error V2E_data_structure
+  /\ read_v2 [kw "dr"; kw "0"; kw "2"] = V2_error V2E_coeff_type
+  /\ read_v2 [kw "drz"; kw "0"; kw "2"] = V2_error V2E_coeff_type
+  /\ read_v2 [kw "dri"] = V2_error V2E_precision
+  /\ read_v2 [kw "dri"; kw "abc"; kw "2"] = V2_error V2E_precision
+  /\ read_v2 [kw "dri"; kw "0"] = V2_error V2E_degree
+  /\ read_v2 [kw "dri"; kw "0"; kw "-2"] = V2_error V2E_degree
+  /\ read_v2 [kw "urf"; kw "0"; kw "-3"] = V2_error V2E_degree
+  /\ read_v2 [kw "urf"; kw "0"; kw "3"] = V2_user 3
+  /\ read_v2 [kw "dri"; kw "0"; kw "2"; kw "1"; kw "2"] = V2_error V2E_coefficients
+  /\ read_v2 [kw "sri"; kw "0"; kw "2"; kw "1"; kw "3"; kw "1"] = V2_error V2E_coefficients
+  /\ (exists p, read_v2 [kw "drixyz"; kw "12x"; kw "+2"; kw "1"; kw "2"; kw "3"] = V2_poly p /\ p_prec p = 39%Z)
+  /\ (exists p, read_v2 [kw "sri"; kw "0"; kw "2"] = V2_poly p /\ p_spar p = [false; false; false])
+  /\ length v2_triples = 18%nat.
+Proof. vm_compute. repeat split; try reflexivity; eexists; split; reflexivity. Qed.
+
+(* the floating-point statement on a legacy file without precision word and on a 3.x file with one *)
+Definition secular_f_prec : polydesc :=
+  {| d_legacy := false; d_kind := KSecular; d_degree := 1; d_real := true; d_ctype := TFloat;
+     d_sparse := false; d_prec := Some 30%positive;
+     d_terms := [ {| t_idx := 0; t_re := NDec lit_m125e3; t_im := NInt 0 0 |} ];
+     d_bterms := [ {| t_idx := 0; t_re := NDec lit_0_5; t_im := NInt 0 0 |} ] |}.
+Example C10_example_float_bits :
+  declared_bits (denote legacy_dense_rf) = 64%positive /\ declared_bits (denote secular_f_prec) = 99%positive
+  /\ map raw_Q (poly_parts (denote legacy_dense_rf)) = [-1250 # 1; 0 # 1; 1 # 2; 0 # 1]
+  /\ within_precb 64 (trunc_bits 128 (1 # 3)) (1 # 3) = true /\ within_precb 64 (trunc_bits 60 (1 # 3)) (1 # 3) = false.
+Proof. vm_compute. repeat split; reflexivity. Qed.
+
+Example C10_example_inline_ers :
+  build_ers (kw " -007.250E+05") = Some (kw "7250/1000", 5%Z, true, true)
+  /\ ers_value (kw "7250/1000", 5%Z, true, true) = Some (-725000 # 1)
+  /\ build_ers (kw ".5") = Some (kw "5/10", 0%Z, false, true)
+  /\ build_ers (kw "5.") = Some (kw "5", 0%Z, false, true)
+  /\ build_ers (kw "1.5e-3") = Some (kw "15/10", (-3)%Z, false, true)
+  /\ build_ers (kw "-1.5/2") = None /\ build_ers (kw "1e2/3") = None
+  /\ build_ers (kw " 1.5/2") = Some (kw "15/2/1000", 0%Z, false, true).
+Proof. vm_compute. repeat split; reflexivity. Qed.
